@@ -335,10 +335,11 @@ func evalCases(st *Stats, cases []gcase, recheck bool) {
 				again = append(again, c)
 				continue
 			}
-			if c.cfg.opts.MinifySyntax && differsWithoutLowering(c, a) {
-				// the same program already behaves differently when it is only minified
-				// (nothing lowered): a defect of the minifier (property C03), not of lowering
-				st.Histogram["difference-due-to-minification-alone"]++
+			if explainedWithoutLowering(c, a, b) {
+				// the same program already behaves differently - and in the same way - when
+				// nothing is lowered (ESNext, same minify flags): a defect of plain
+				// transformation or of the minifier (properties C01 / C03), not of lowering
+				st.Histogram["difference-already-present-without-lowering"]++
 				continue
 			}
 			st.Fail("lowered-output-behaves-differently", map[string]string{"program": c.src, "options": c.cfg.desc, "output": c.out, "first_difference": firstDiff(a, b)}, b.String(), a.String())
@@ -349,9 +350,11 @@ func evalCases(st *Stats, cases []gcase, recheck bool) {
 	}
 }
 
-// differsWithoutLowering: transform with the same minify flags but ESNext and
-// no overrides; true if that output already differs from the original.
-func differsWithoutLowering(c gcase, orig NodeResult) bool {
+// explainedWithoutLowering: transform with the same flags but ESNext and no
+// engine/feature overrides (nothing is lowered).  If that baseline output
+// already differs from the original AND the lowered output behaves exactly
+// like the baseline, lowering is not what changed the behaviour.
+func explainedWithoutLowering(c gcase, orig, lowered NodeResult) bool {
 	o := c.cfg.opts
 	o.Target = api.ESNext
 	o.Engines = nil
@@ -364,7 +367,7 @@ func differsWithoutLowering(c gcase, orig NodeResult) bool {
 	if err != nil {
 		return false
 	}
-	return !orig.Same(rs[0])
+	return !orig.Same(rs[0]) && lowered.Same(rs[0])
 }
 
 func firstDiff(a, b NodeResult) string {
@@ -417,6 +420,13 @@ var witnesses = []witness{
 	{"C05-F11", "static private field + `#p in o` with only class-private-brand-check unsupported: `_C2.#sp = 7` is emitted outside the class body (SyntaxError, no error reported)",
 		"class C2 {\n  static #sp = 7;\n  static readSP() { return C2.#sp; }\n  #p = 1;\n  static hasP(o) { return #p in o; }\n}\n$p(C2.readSP(), C2.hasP(new C2));\n",
 		api.TransformOptions{Loader: api.LoaderJS, LogLevel: api.LogLevelSilent, Engines: []api.Engine{{Name: api.EngineChrome, Version: "90"}}}},
+	{"C05-F12", "temporaries collide: the loop variable of a lowered `for (var {a, ...r} of ...)` and the cache of a lowered tagged template are both `_a` in the same scope (--target=node8): the tag function receives the loop object instead of the strings array",
+		"for (var {a, ...rest} of [{a: 1, q: 2}]) { $p(rest); }\nfunction tag(strs) { return strs; }\nvar r = tag`x`;\n$p(r, Object.isFrozen(r));\n",
+		api.TransformOptions{Loader: api.LoaderJS, LogLevel: api.LogLevelSilent, Engines: []api.Engine{{Name: api.EngineNode, Version: "8"}}}},
+	{"C05-F2b", "`a[f()] ||= 5` where f() reassigns `a` (no getter involved): lowered to `a[_a = f()] || (a[_a] = 5)`, `a` is re-read after f() ran and the store goes to the new object",
+		"var o1 = {tag: \"o1\"}, o2 = {tag: \"o2\"};\nvar a = o1;\nfunction f() { a = o2; return \"k\"; }\na[f()] ||= 5;\n$p(o1, o2);\n", es(api.ES2020)},
+	{"C05-F3b", "`b[g()]?.()` where g() reassigns `b`: lowered to `(_a = b[g()]) == null ? void 0 : _a.call(b)`, this is the new object",
+		"var o1 = {tag: \"o1\", m() { return this.tag; }}, o2 = {tag: \"o2\", m: o1.m};\nvar b = o1;\nfunction g() { b = o2; return \"m\"; }\n$p(b[g()]?.());\n", es(api.ES2019)},
 	{"C05-F10", "a parameter with object rest is destructured in the body, after the default values of later parameters were evaluated",
 		"function fn({a = $p(\"default-a\"), ...rest}, b = $p(\"default-b\")) { return [a, rest, b]; }\nfn({x: 1});\n", es(api.ES2017)},
 }
